@@ -58,6 +58,17 @@ Ltac upd :=
   | H : context [Nat.eqb ?a ?b] |- _ => destruct (Nat.eqb_spec a b); subst
   end.
 
+(* what a logged re-entrant request may have got: an item asked for its value()/error() while the body of
+   its batch runs reports its outcome or gets BatchingError - never the "not computed" marker, never a
+   nested flush; flush() called by the body gets BatchingError *)
+Definition read_ok (e : event) : Prop :=
+  match e with
+  | ERead _ _ r => r <> RNotComputed /\ r <> RSkip
+  | EReflush _ r => r = RRaise E_BATCHING
+  | EBRead _ r => r <> RNotComputed /\ r <> RSkip
+  | _ => True
+  end.
+
 (* ------------------------------------------------------------------ the invariant
    [x = Some b] means: batch b has just stored its outcome and is inside _computed (its leftover
    items are being completed, its own on_computed has not fired yet). *)
@@ -77,7 +88,8 @@ Record inv (x : option nat) (w : world) : Prop := mkInv {
   i_body : forall b, b < nb w -> length (body_evs b (log w)) = bruns (bat w b) /\ Forall (fun a => a <> b) (body_evs b (log w));
   i_body2 : forall b, nb w <= b -> body_evs b (log w) = [];
   i_order : forall l1 l2 b o i, log w = l1 ++ EBatch b o :: l2 -> i < ni w -> ibatch (itm w i) = b ->
-                                item_evs i l1 <> []
+                                item_evs i l1 <> [];
+  i_reads : Forall read_ok (log w)
 }.
 
 Lemma inv_init : inv None init.
@@ -125,6 +137,7 @@ Proof.
   - apply snoc_split in H as [(A1 & A2 & A3)|(l2' & A1 & A2)]; try discriminate.
     assert (ibatch (itm w i0) = b) by (upd; cbn in *; auto).
     eapply (i_order _ _ I); eauto.
+  - apply Forall_app; split; [apply (i_reads _ _ I)|repeat constructor].
 Qed.
 
 Lemma finish_items_frame w l o :
@@ -172,9 +185,10 @@ Lemma inv_counters x w b r c e :
   (forall j, j <> b -> body_evs j [e] = []) ->
   (length (body_evs b (log w ++ [e])) = r /\ Forall (fun a => a <> b) (body_evs b (log w ++ [e]))) ->
   (forall l1 l2 c o, log w ++ [e] = l1 ++ EBatch c o :: l2 -> exists l2', log w = l1 ++ EBatch c o :: l2') ->
+  read_ok e ->
   inv x (emit (set_bat w b (mkB (bitems (bat w b)) (bout (bat w b)) r c)) e).
 Proof.
-  intros I L E1 E2 E3 E4 E5.
+  intros I L E1 E2 E3 E4 E5 RO.
   constructor; cbn; intros.
   - apply (i_act_lt _ _ I).
   - upd; cbn; apply (i_act_pend _ _ I); auto.
@@ -190,6 +204,37 @@ Proof.
   - upd; cbn; auto. rewrite body_evs_app, E3, app_nil_r by auto. apply (i_body _ _ I); auto.
   - rewrite body_evs_app, E3, app_nil_r by lia. apply (i_body2 _ _ I); auto.
   - apply E5 in H as (l2' & H). eapply (i_order _ _ I); eauto.
+  - apply Forall_app; split; [apply (i_reads _ _ I)|repeat constructor; auto].
+Qed.
+
+(* logging an event that is no announcement, no body entry *)
+Definition neutral (e : event) : Prop :=
+  match e with ERead _ _ _ | EReflush _ _ | EBRead _ _ => True | _ => False end.
+
+Lemma inv_emit x w e : inv x w -> neutral e -> read_ok e -> inv x (emit w e).
+Proof.
+  intros I N RO.
+  assert (E1 : forall i, item_evs i [e] = []) by (destruct e; cbn in N; try tauto; reflexivity).
+  assert (E2 : forall j, batch_evs j [e] = []) by (destruct e; cbn in N; try tauto; reflexivity).
+  assert (E3 : forall j, body_evs j [e] = []) by (destruct e; cbn in N; try tauto; reflexivity).
+  constructor; cbn; intros.
+  - apply (i_act_lt _ _ I).
+  - apply (i_act_pend _ _ I); auto.
+  - apply (i_ib _ _ I); auto.
+  - apply (i_listed _ _ I); auto.
+  - apply (i_pend _ _ I); auto.
+  - apply (i_done _ _ I); auto.
+  - rewrite item_evs_app, E1, app_nil_r. apply (i_ilog _ _ I); auto.
+  - rewrite item_evs_app, E1, app_nil_r. apply (i_ilog2 _ _ I); auto.
+  - rewrite batch_evs_app, E2, app_nil_r. apply (i_blog _ _ I); auto.
+  - rewrite batch_evs_app, E2, app_nil_r. apply (i_blog_x _ _ I); auto.
+  - rewrite batch_evs_app, E2, app_nil_r. apply (i_blog2 _ _ I); auto.
+  - rewrite body_evs_app, E3, app_nil_r. apply (i_body _ _ I); auto.
+  - rewrite body_evs_app, E3, app_nil_r. apply (i_body2 _ _ I); auto.
+  - apply snoc_split in H as [(A1 & A2 & A3)|(l2' & A1 & A2)].
+    + subst e. cbn in N. tauto.
+    + eapply (i_order _ _ I); eauto.
+  - apply Forall_app; split; [apply (i_reads _ _ I)|repeat constructor; auto].
 Qed.
 
 Lemma inv_cancel_hook x w b : inv x w -> b < nb w -> inv x (call_cancel_hook w b).
@@ -197,6 +242,7 @@ Proof.
   intros I L. unfold call_cancel_hook. apply inv_counters; auto.
   - rewrite body_evs_app. cbn. rewrite app_nil_r. apply I; auto.
   - intros. apply snoc_split in H as [(A1 & A2 & A3)|(l2' & A1 & A2)]; try discriminate. eauto.
+  - cbn. auto.
 Qed.
 
 Lemma inv_switch x w b : inv x w -> inv x (switch w b) /\ (b < nb w -> active (switch w b) <> b).
@@ -222,6 +268,7 @@ Proof.
       * apply (i_body _ _ I); lia.
     + apply (i_body2 _ _ I); lia.
     + eapply (i_order _ _ I); eauto.
+    + apply (i_reads _ _ I).
   - split; auto.
 Qed.
 
@@ -255,6 +302,7 @@ Proof.
     upd; cbn in *.
     + exfalso. eapply (no_batch_event _ _ _ _ _ _ I P); eauto.
     + eapply (i_order _ _ I); eauto. lia.
+  - apply Forall_app; split; [apply (i_reads _ _ I)|repeat constructor].
 Qed.
 
 Lemma inv_item_set w i o : inv None w -> i < ni w -> inv None (fst (item_set w i o)).
@@ -284,6 +332,7 @@ Proof.
   - upd; cbn; apply (i_body _ _ I); auto.
   - apply (i_body2 _ _ I); auto.
   - eapply (i_order _ _ I); eauto.
+  - apply (i_reads _ _ I).
 Qed.
 
 (* the batch's own on_computed closes the phase, once every item of the batch is complete *)
@@ -314,6 +363,7 @@ Proof.
     + inversion A2; subst. rewrite (i_ilog _ _ I) by auto. unfold obs_item.
       specialize (D i H0 eq_refl). destruct (iout (itm w i)); congruence.
     + eapply (i_order _ _ I); eauto.
+  - apply Forall_app; split; [apply (i_reads _ _ I)|repeat constructor].
 Qed.
 
 Lemma inv_batch_computed w b o :
@@ -449,6 +499,13 @@ Proof.
   - destruct (nth_error _ k); cbn. apply ext_item_set. apply ext_refl.
   - apply ext_new_item.
   - apply ext_cancel.
+  - destruct (nth_error _ k); cbn. apply ext_emit. apply ext_refl.
+  - apply ext_emit.
+  - destruct (nth_error _ k); cbn; [|apply ext_refl].
+    pose proof (ext_item_set w n (Ok v)) as A.
+    destruct (item_set w n (Ok v)) as [w1 [e|]]; cbn in *; auto.
+    destruct (nth_error _ j); cbn; auto. eapply ext_trans; [exact A|apply ext_emit].
+  - apply ext_emit.
 Qed.
 
 Lemma ext_exec b acts : forall w, ext w (fst (exec w b acts)).
@@ -474,6 +531,29 @@ Proof.
   apply IH; auto. intros j Hj. pose proof (e_ni _ _ X). specialize (H j (or_intror Hj)). lia.
 Qed.
 
+(* a request for value()/error() of an item of the batch whose body is running *)
+Lemma sibling_read_spec w b i kd :
+  inv None w -> b < nb w -> In i (bitems (bat w b)) ->
+  let r := sibling_read w b i kd in
+  r <> RNotComputed /\ r <> RSkip /\
+  (iout (itm w i) = None -> bout (bat w b) = None /\ r = RRaise E_BATCHING) /\
+  (forall o, iout (itm w i) = Some o -> r = rep_of kd (Some o)).
+Proof.
+  intros I L H. cbn zeta. destruct (i_listed _ _ I b i L H) as (Li & Bi).
+  unfold sibling_read. rewrite Bi. destruct (iout (itm w i)) as [o|] eqn:E.
+  - repeat split; try discriminate.
+    + destruct kd, o; cbn; discriminate.
+    + destruct kd, o; cbn; discriminate.
+    + intros o' Ho. inversion Ho; subst. reflexivity.
+  - assert (P : bout (bat w b) = None).
+    { destruct (bout (bat w b)) eqn:Q; auto. exfalso.
+      apply (i_done _ _ I i Li); try discriminate; rewrite ?Bi; congruence. }
+    rewrite P, Nat.eqb_refl. repeat split; try discriminate; auto.
+Qed.
+
+Lemma batch_reread_ok w b kd : batch_reread w b kd <> RNotComputed /\ batch_reread w b kd <> RSkip.
+Proof. unfold batch_reread. destruct (bout (bat w b)) as [[?|?]|], kd; cbn; split; discriminate. Qed.
+
 Lemma inv_exec1 w b a : inv None w -> b < nb w -> inv None (fst (exec1 w b a)).
 Proof.
   intros I L. destruct a; cbn; auto.
@@ -484,6 +564,18 @@ Proof.
     apply nth_error_In in E. apply (i_listed _ _ I b n); auto.
   - apply inv_new_item; auto. apply I.
   - apply inv_cancel; auto.
+  - destruct (nth_error _ k) eqn:E; cbn; auto. apply inv_emit; cbn; auto.
+    apply nth_error_In in E. destruct (sibling_read_spec w b n kd I L E) as (A1 & A2 & _). auto.
+  - apply inv_emit; cbn; auto.
+  - destruct (nth_error _ k) eqn:E; cbn; auto.
+    assert (A : inv None (fst (item_set w n (Ok v)))).
+    { apply inv_item_set; auto. apply nth_error_In in E. apply (i_listed _ _ I b n); auto. }
+    pose proof (ext_item_set w n (Ok v)) as X.
+    destruct (item_set w n (Ok v)) as [w1 [e|]]; cbn in *; auto.
+    destruct (nth_error _ j) eqn:E2; cbn; auto. apply inv_emit; cbn; auto.
+    apply nth_error_In in E2. pose proof (e_nb _ _ X).
+    destruct (sibling_read_spec w1 b n0 kd A ltac:(lia) E2) as (A1 & A2 & _). auto.
+  - apply inv_emit; cbn; auto. apply batch_reread_ok.
 Qed.
 
 Lemma inv_exec b acts : forall w, inv None w -> b < nb w -> inv None (fst (exec w b acts)).
@@ -520,6 +612,7 @@ Proof.
       destruct (i_body _ _ I1 b L1) as (B1 & B2). split. lia.
       apply Forall_app. split; auto.
     + intros. apply snoc_split in H as [(Q1 & Q2 & Q3)|(l2' & Q1 & Q2)]; try discriminate. eauto.
+    + cbn. auto.
   - upd; cbn; congruence.
   - upd; cbn; congruence.
   - intros c Hc Hn. upd; try congruence. now rewrite F2.
@@ -656,6 +749,7 @@ Proof.
   - upd; cbn; apply (i_body _ _ I); auto.
   - apply (i_body2 _ _ I); auto.
   - eapply (i_order _ _ I); eauto.
+  - apply (i_reads _ _ I).
 Qed.
 
 Lemma ext_clear_items w b : ext w (clear_items w b).
@@ -939,6 +1033,9 @@ Proof.
   - destruct (nth_error _ k); cbn; auto. unfold item_set. destruct (iout (itm w n)); cbn; auto.
   - unfold new_item. destruct (bout (bat w (active w))); cbn; auto.
   - unfold cancel. destruct (bout (bat w b)); auto. apply batch_computed_active; auto.
+  - destruct (nth_error _ k); cbn; auto.
+  - destruct (nth_error _ k); cbn; auto. unfold item_set. destruct (iout (itm w n)); cbn; auto.
+    destruct (nth_error _ j); cbn; auto.
 Qed.
 
 Lemma exec_active b acts : forall w, active w <> b -> active (fst (exec w b acts)) = active w.
@@ -974,6 +1071,104 @@ Proof.
   intros (I & _). split. apply I. split. apply (i_act_pend _ _ I); discriminate.
   intros b L. apply (i_body _ _ I b L).
 Qed.
+
+(* ------------------------------------------------------------------ re-entrant requests while the body runs *)
+(* every world the body of b passes through (any prefix of any script), started from a good world, satisfies
+   the invariant: the hypothesis of the three lemmas below is met at every point of every flush *)
+Lemma body_worlds_inv w b acts : good w -> b < nb w ->
+  inv None (fst (exec (enter w b) b acts)) /\ b < nb (fst (exec (enter w b) b acts)).
+Proof.
+  intros G L. destruct (inv_enter w b (proj1 G) L) as (I1 & _ & L1 & _).
+  split. apply inv_exec; auto. pose proof (e_nb _ _ (ext_exec b acts (enter w b))). lia.
+Qed.
+
+(* the body asks item k of its own batch for value()/error(): nothing but the log changes - the body is not
+   entered again, nothing is completed - and the answer is the item's outcome if it is complete, BatchingError
+   if it is still pending (the batch is then pending too: its flush is in progress) *)
+Lemma reentrant_read w b k kd c i :
+  inv None w -> b < nb w -> nth_error (bitems (bat w b)) k = Some i ->
+  let r := sibling_read w b i kd in
+  let w' := fst (exec1 w b (ARead k kd c)) in
+  exec1 w b (ARead k kd c) = (emit w (ERead b i r), if c then None else raised r) /\
+  bat w' = bat w /\ itm w' = itm w /\ nb w' = nb w /\ ni w' = ni w /\ active w' = active w /\
+  r <> RNotComputed /\ r <> RSkip /\
+  (iout (itm w i) = None -> bout (bat w b) = None /\ r = RRaise E_BATCHING) /\
+  (forall o, iout (itm w i) = Some o -> r = rep_of kd (Some o)).
+Proof.
+  intros I L E. cbn zeta. cbn [exec1]. rewrite E. cbn [fst].
+  destruct (sibling_read_spec w b i kd I L (nth_error_In _ _ E)) as (A1 & A2 & A3 & A4).
+  repeat split; auto; apply A3; auto.
+Qed.
+
+(* flush() called by the body of the batch being flushed is refused; nothing but the log changes *)
+Lemma reflush_refused w b c :
+  exec1 w b (AReflush c) = (emit w (EReflush b (RRaise E_BATCHING)), if c then None else Some E_BATCHING).
+Proof. reflexivity. Qed.
+
+(* value()/error() of the batch itself asked by its running body (repaired code): refused with BatchingError
+   while the batch is pending, the stored outcome once the body has cancelled it; nothing but the log changes *)
+Lemma batch_reread_refused w b kd c :
+  let r := batch_reread w b kd in
+  exec1 w b (AReadBatch kd c) = (emit w (EBRead b r), if c then None else raised r) /\
+  (bout (bat w b) = None -> r = RRaise E_BATCHING) /\
+  (forall o, bout (bat w b) = Some o -> r = rep_of kd (Some o)).
+Proof.
+  cbn zeta. split. reflexivity. unfold batch_reread. split.
+  - intros ->. reflexivity.
+  - intros o ->. reflexivity.
+Qed.
+
+(* an on_computed subscriber of item k asks sibling j for its value as soon as k is set by the body: k gets its
+   value, the sibling's request is answered as above on the world in which k is complete (BatchingError for a
+   pending sibling, which stays pending; the body is not entered again) *)
+Lemma set_read_spec w b k v j kd i i2 :
+  inv None w -> b < nb w -> nth_error (bitems (bat w b)) k = Some i -> iout (itm w i) = None ->
+  nth_error (bitems (bat w b)) j = Some i2 ->
+  let w1 := complete_item w i (Ok v) in
+  let r := sibling_read w1 b i2 kd in
+  exec1 w b (ASetRead k v j kd) = (emit w1 (ERead b i2 r), None) /\
+  (i2 = i -> r = rep_of kd (Some (Ok v))) /\
+  (i2 <> i -> iout (itm w i2) = None ->
+     r = RRaise E_BATCHING /\ iout (itm (emit w1 (ERead b i2 r)) i2) = None) /\
+  bat (emit w1 (ERead b i2 r)) = bat w.
+Proof.
+  intros I L E P E2. cbn zeta. cbn [exec1]. rewrite E. unfold item_set. rewrite P.
+  assert (B : bat (complete_item w i (Ok v)) = bat w) by reflexivity.
+  rewrite B, E2.
+  assert (Li : i < ni w) by (apply (i_listed _ _ I b i L); eapply nth_error_In; eauto).
+  pose proof (inv_complete_item None w i (Ok v) I Li P) as I1.
+  assert (H2 : In i2 (bitems (bat (complete_item w i (Ok v)) b))) by (rewrite B; eapply nth_error_In; eauto).
+  destruct (sibling_read_spec (complete_item w i (Ok v)) b i2 kd I1 L H2) as (A1 & A2 & A3 & A4).
+  repeat split; auto.
+  - intros ->. apply A4. cbn. upd; cbn; congruence.
+  - apply A3. cbn. upd; cbn; congruence.
+  - cbn. upd; cbn; congruence.
+Qed.
+
+(* in every reachable world every logged re-entrant request was answered with the item's outcome or refused
+   with BatchingError (never the "not computed" marker, never a nested flush), and every flush() called by a
+   running body was refused - together with lifecycle_once (body entries = bruns <= 1) for the same scripts *)
+Lemma reads_refused w : good w -> Forall read_ok (log w).
+Proof. intros (I & _). apply (i_reads _ _ I). Qed.
+
+Lemma reads_refused_run sc ops :
+  Forall read_ok (log (fst (run sc init ops))) /\
+  forall b, b < nb (fst (run sc init ops)) -> bruns (bat (fst (run sc init ops)) b) <= 1.
+Proof.
+  pose proof (reachable_good sc ops) as G. split. apply reads_refused; auto.
+  intros b L. apply (proj2 G b L).
+Qed.
+
+(* non-vacuity of the re-entrant part: a subscriber of item 0 and the body itself ask pending item 1, the
+   body calls flush(); the body is entered once and item 1 gets the value the body sets afterwards *)
+Example nonvacuous_reentrant :
+  let sc := [[ASetRead 0 (VInt 5) 1 KValue; ARead 1 KError true; AReflush true; ASet 1 (VInt 7)]] in
+  let w := fst (run sc init [OAdd (VInt 1); OAdd (VInt 2); OItemValue 0]) in
+  log w = [ENew 0 0; ENew 1 0; EBody 0 1; EItem 0 (Ok (VInt 5)); ERead 0 1 (RRaise E_BATCHING);
+           ERead 0 1 (RRaise E_BATCHING); EReflush 0 (RRaise E_BATCHING); EItem 1 (Ok (VInt 7));
+           EBatch 0 (Ok VNone)] /\
+  bruns (bat w 0) = 1 /\ iout (itm w 1) = Some (Ok (VInt 7)).
+Proof. cbn zeta. repeat split; reflexivity. Qed.
 
 (* non-vacuity: a concrete history in which a body sets one item, creates a request and raises *)
 Example nonvacuous :
